@@ -109,7 +109,14 @@ func (v *fnVC) instr(b *ssa.BasicBlock, in ssa.Instruction, st *State) {
 			v.bind(i, mk(sapp("sat", x.S, idx.S), sU8))
 			return
 		}
-		v.unsupported("index of array value at %s", v.pos(i.Pos()))
+		if at, ok := i.X.Type().Underlying().(*types.Array); ok {
+			x := v.val(i.X)
+			idx := intTo64(v.val(i.Index))
+			v.safetyOb("index-out-of-range", i.Pos(), mk(sapp("and", sapp("bvsle", bvLit(0, 64), idx.S), sapp("bvslt", idx.S, bvLit(at.Len(), 64))), sBool))
+			v.bind(i, mk(sapp("select", x.S, idx.S), e.sortOf(at.Elem())))
+			return
+		}
+		v.unsupported("index of %s value at %s", i.X.Type(), v.pos(i.Pos()))
 		v.setVal(i, e.freshConst("idx", e.sortOf(i.Type())))
 	case *ssa.Lookup:
 		v.lookup(i, st)
@@ -283,6 +290,10 @@ func (v *fnVC) storeWhole(a *T, elem types.Type, val *T, st *State) {
 		es := e.sortOf(at.Elem())
 		hn := elemHeap(es)
 		h := st.get(hn, arrSort(sRef, arrSort(sI64, es)))
+		if val != nil && val.Sort.Kind == KArray {
+			st.set(hn, sto(h, a, val))
+			return
+		}
 		st.set(hn, sto(h, a, mk("((as const "+arrSort(sI64, es).SMT()+") "+e.zero(at.Elem()).S+")", arrSort(sI64, es))))
 		return
 	}
